@@ -53,7 +53,14 @@ func ZZ_C19_LateAnswers() {
 					RequestedServiceUnit: &charging_datatype.RequestedServiceUnit{CCTotalOctets: 10}}}
 		}
 		n1 := vx.Uint32("reqnum")
-		_, err1 := abmf.SendAccountDebitRequest(ue, mk(n1))
+		first := mk(n1)
+		if vx.Choice("firstAnswerCarriesFinalUnit", 2) == 1 {
+			// the first answer carries optional members (final-unit indication)
+			// that the second one does not
+			zzAccount(zzSupi, 2, 5, 10)
+			first.MultipleServicesCreditControl.RatingGroup = 2
+		}
+		_, err1 := abmf.SendAccountDebitRequest(ue, first)
 		_ = err1
 		vx.Tag("stale", len(ue.AcctChan) > 0)
 		vx.DeliverLateAnswers()
@@ -64,6 +71,10 @@ func ZZ_C19_LateAnswers() {
 		vx.Assert("second credit-control request completes with an answer", err2 == nil && rsp != nil)
 		if err2 == nil && rsp != nil {
 			vx.Assert("the answer acted on carries the second request's CC-Request-Number", uint32(rsp.CcRequestNumber) == n1+1)
+			var sent charging_datatype.AccountDebitResponse
+			if vx.LastAnswer(&sent) {
+				vx.Assert("the answer acted on is, member for member, what the peer sent for the second request (nothing of an earlier answer)", vx.Equal(*rsp, sent))
+			}
 		}
 		return
 	}
